@@ -57,6 +57,10 @@ type resolver struct {
 	unresolvedUses []*usesUnresolved
 	loadedModules  map[string]*Module
 	trace          bool
+
+	// submodules already copied into a module, keyed by module and submodule name, so that
+	// submodules including each other (or themselves) are loaded once
+	included map[string]struct{}
 }
 
 func (r *resolver) module(y *Module) error {
@@ -213,6 +217,14 @@ func (r *resolver) copyOverIncludes(main *Module, includes []*Include) error {
 		if i.rev != nil {
 			rev = i.rev.Ident()
 		}
+		key := main.ident + "/" + i.subName
+		if _, seen := r.included[key]; seen {
+			continue
+		}
+		if r.included == nil {
+			r.included = make(map[string]struct{})
+		}
+		r.included[key] = struct{}{}
 		sub, err := i.loader(i.parent, i.subName, rev, i.parent.featureSet, i.loader)
 		if err != nil {
 			return errors.New(i.subName + " - " + err.Error())
